@@ -120,8 +120,9 @@ class ManualExecutor(Executor):
                    the callable is never run.
     """
 
-    def __init__(self, mc, mode="manual", label="b", forget=False):
+    def __init__(self, mc, mode="manual", label="b", forget=False, honour_cancel_futures=True):
         self.mc = mc
+        self.honour_cancel_futures = honour_cancel_futures
         self.mode = mode
         self.forget = forget            # drop fn/args/future of finished items (like real pools do)
         self.lab = label
@@ -150,7 +151,7 @@ class ManualExecutor(Executor):
         self.mc.emit("base.shutdown", b=self.lab, wait=wait, kwargs=brief(kwargs))
         self.shutdowns.append((wait, dict(kwargs)))
         self.down = True
-        if kwargs.get("cancel_futures"):
+        if kwargs.get("cancel_futures") and self.honour_cancel_futures:
             for it in self.items:
                 if it.state == "queued":
                     it.future.cancel()
@@ -251,8 +252,9 @@ class Script(object):
          ('call', fn) -> return fn(*args, **kwargs) | ('argret',) -> return first arg
     Every invocation is logged (start/end) and contains a scheduling point."""
 
-    def __init__(self, mc, label, entries, point=True):
+    def __init__(self, mc, label, entries, point=True, duration=0.0):
         self.mc = mc
+        self.duration = duration        # virtual time every invocation takes
         self.label = label
         self.entries = list(entries)
         self.calls = []
@@ -275,6 +277,8 @@ class Script(object):
         try:
             if self.point:
                 self.mc.point()
+            if self.duration:
+                self.mc.sleep(self.duration)
             act = ent[0]
             if act == "ret":
                 out = ent[1]
